@@ -3,7 +3,8 @@
  (a) spec/Mem.tla PtrLoadAllowed / PtrStoreAllowed on harness/mem_driver.cpp "ptr" mode: every
      offset of the 4 KiB region stored through every pointer-carrying position and read back,
      2^16 (2^20) + boundary + random guest representations read through every position, with
-     three live sandboxes, under both translation paths (mask / finder) and both foreign ABIs.
+     three live sandboxes, under both translation paths (mask / finder) and three foreign ABIs
+     (wasm32, lp16, and lp64u whose pointers are as wide as the host's but are offsets).
  (b) spec/Sbx.tla with the PtrRT action: every create/destroy order of up to three sandboxes
      (TLC), pointer round trips in every live sandbox of every registry state, replayed on the
      finder-based vm backend; TLC validates (Trace_Sbx)."""
@@ -18,13 +19,13 @@ def run(tier, prop="C04"):
     thorough = tier == "thorough"
     drv = mc.drivers()
     total, combos = 0, set()
-    tags = ("mask", "finder", "lp16", "lp16_finder") if thorough else ("mask", "finder", "lp16")
+    tags = ("mask", "finder", "lp16", "lp16_finder", "lp64u") if thorough else ("mask", "finder", "lp16", "lp64u")
     from concurrent.futures import ThreadPoolExecutor
 
     def one(tag):
         tpath = mc.record(drv["mem_" + tag], wd, "ptr", tag, thorough)
         return tag, mc.validate(chk, tpath, "ptr/" + tag)
-    with ThreadPoolExecutor(max_workers=4) as ex:
+    with ThreadPoolExecutor(max_workers=5) as ex:
         results = list(ex.map(one, tags))
     for tag, (events, bad) in results:
         total += len(events)
